@@ -46,3 +46,68 @@ package mathx
 //@ func lchoose
 //@   inline
 //@   assigns nothing
+
+// ---------------------------------------------------------------------
+// Beta, BetaInc, GammaInc, GammaIncComp (C08): guards, end points, branch
+// wiring. Model xreal. The continued fractions / series are assumed
+// deterministic and finite-valued (their accuracy is NOT decided here).
+
+//@ func lgamma
+//@   inline
+//@   assigns nothing
+
+//@ func Beta
+//@   model xreal
+//@   ensures [def] result == exp(lgamma(a) + lgamma(b) - lgamma(a + b))
+//@   assigns nothing
+
+//@ assume func betacf
+//@   deterministic
+//@   model xreal
+//@   trusted modified Lentz continued fraction (Numerical Recipes 6.4): returns a finite value or panics after 200 iterations; convergence and accuracy not verified
+//@   ensures isfinite(result)
+//@   assigns nothing
+
+//@ func BetaInc
+//@   deterministic
+//@   model xreal
+//@   requires isfinite(a) && isfinite(b) && a > 0 && b > 0 && !isnan(x)
+//@   ensures [nan-outside] (x < 0 || x > 1) ==> isnan(result)
+//@   ensures [zero]        x == 0 ==> result == 0
+//@   ensures [one]         x == 1 ==> result == 1
+//@   ensures [direct]      0 < x && x < 1 && x < (a + 1) / (a + b + 2) ==> result == exp(lgamma(a + b) - lgamma(a) - lgamma(b) + a * log(x) + b * log(1 - x)) * betacf(x, a, b) / a
+//@   ensures [reflected]   0 < x && x < 1 && !(x < (a + 1) / (a + b + 2)) ==> result == 1 - exp(lgamma(a + b) - lgamma(a) - lgamma(b) + a * log(x) + b * log(1 - x)) * betacf(1 - x, b, a) / b
+//@   assigns nothing
+
+//@ assume func gammaIncSeries
+//@   deterministic
+//@   model xreal
+//@   trusted series of Numerical Recipes 6.2: convergence and accuracy not verified
+//@   ensures true
+//@   assigns nothing
+
+//@ assume func gammaIncCF
+//@   deterministic
+//@   model xreal
+//@   trusted continued fraction of Numerical Recipes 6.2: convergence and accuracy not verified
+//@   ensures true
+//@   assigns nothing
+
+//@ func GammaInc
+//@   model xreal
+//@   ensures [nan]    (a <= 0 || x < 0 || isnan(a) || isnan(x)) ==> isnan(result)
+//@   ensures [series] !(a <= 0 || x < 0 || isnan(a) || isnan(x)) && x < a + 1 ==> result == gammaIncSeries(a, x)
+//@   ensures [cf]     !(a <= 0 || x < 0 || isnan(a) || isnan(x)) && !(x < a + 1) ==> result == 1 - gammaIncCF(a, x)
+//@   assigns nothing
+
+//@ func GammaIncComp
+//@   model xreal
+//@   ensures [nan]    (a <= 0 || x < 0 || isnan(a) || isnan(x)) ==> isnan(result)
+//@   ensures [series] !(a <= 0 || x < 0 || isnan(a) || isnan(x)) && x < a + 1 ==> result == 1 - gammaIncSeries(a, x)
+//@   ensures [cf]     !(a <= 0 || x < 0 || isnan(a) || isnan(x)) && !(x < a + 1) ==> result == gammaIncCF(a, x)
+//@   assigns nothing
+
+// GammaInc + GammaIncComp = 1 (same branch in both; exact real arithmetic).
+//@ lemma gamma_complement(s real, c real)
+//@   model real
+//@   ensures s + (1 - s) == 1 && (1 - c) + c == 1
